@@ -100,6 +100,54 @@ class Loopback:
         self.servers.append(srv)
         return port, log
 
+    def switch(self, backends):
+        """one address whose server can be exchanged between two connections (takeover while the client
+        is disconnected): a TCP forwarder on 127.0.0.1:<port> that pipes every new connection to the
+        backend port currently selected.  backends: name -> port of a listening server.
+        Returns (port, select) ; select(name) takes effect for connections accepted afterwards."""
+        state = {"to": None}
+
+        async def pipe(r, w):
+            try:
+                while True:
+                    data = await r.read(65536)
+                    if not data:
+                        break
+                    w.write(data)
+                    await w.drain()
+            except Exception:  # noqa
+                pass
+            try:
+                w.close()
+            except Exception:  # noqa
+                pass
+
+        async def handle(cr, cw):
+            try:
+                br, bw = await asyncio.open_connection("127.0.0.1", backends[state["to"]])
+            except Exception:  # noqa
+                cw.close()
+                return
+            await asyncio.gather(pipe(cr, bw), pipe(br, cw))
+
+        async def go():
+            return await asyncio.start_server(handle, "127.0.0.1", 0)
+
+        srv = self.call(go())
+        port = srv.sockets[0].getsockname()[1]
+        self.servers.append(srv)
+
+        def select(name):
+            if name not in backends:
+                raise KeyError(name)
+
+            async def s():
+                state["to"] = name
+
+            self.call(s())
+
+        return port, select
+
     def close(self):
         async def stop():
             for s in self.servers:
